@@ -123,3 +123,13 @@ PROPS['C20'] = dict(level='translation_validation',
   outside='gcc-vs-clang differences; coroutine expressions under C++17 (not compiled there); async_trace output format',
   harnesses=[SEQ('%s_%s' % (n, cfgname(std, defs)), 'C20_cfg.cpp', 'h20_' + n, std=std, defs=defs, extra=(['$REPO/source/async_stack.cpp'] if 'UNDEBUG' in defs else []), desc='%s under %s %s' % (n, std, ' '.join(defs)))
              for (std, defs) in CFGS for n in ['then', 'upon_error', 'upon_done', 'let_value', 'let_error', 'let_done', 'sequence', 'finally', 'materialize', 'just']])
+
+PROPS['C06'] = dict(level='model_checking',
+  bounds='manual_event_loop: 1-2 producers + worker (+stopper), T<=3, K per harness, std::mutex/condition_variable modelled exactly (no spurious wake-ups in lost-wake-up queries); trampoline depth 1..3 with up to 6 nested schedules; sequential FIFO/stop-before-run',
+  outside='static_thread_pool with more than one worker, new_thread_context, timed contexts (C07)',
+  harnesses=[
+    H('mel_producer_vs_worker', 'C06_loops.cpp', ['h_worker', 'h_prod_then_stop'], 30, opts=dict(params=[1, 0]), desc='manual_event_loop: enqueue+stop racing the worker going idle: accepted item must run on the worker'),
+    H('mel_two_items_fifo', 'C06_loops.cpp', ['h_worker', 'h_prod01', 'h_stopper'], 40, opts=dict(params=[2, 1]), tier='thorough', timeout=2400, desc='manual_event_loop: two items from one producer run FIFO on the worker, then stop'),
+    H('pool1_enqueue_vs_shutdown', 'C06_pool.cpp', ['h_worker', 'h_main'], 40, opts=dict(thread_of_body={'0': 0}), desc='static_thread_pool(1): schedule() then destruction racing the worker going idle'),
+  ] + [SEQ('mel_seq_fifo_c%d' % c, 'C06_loops.cpp', 'h_seq_fifo', opts=dict(params=[c]), desc='manual_event_loop sequential: 3 items, stop() before run(), item %d cancelled' % (c - 1)) for c in range(4)]
+    + [SEQ('trampoline_d%d_n%d' % (d, n), 'C06_loops.cpp', 'h_trampoline', opts=dict(params=[d, n], max_rec=12), desc='trampoline depth %d with %d nested schedules' % (d, n)) for d in (1, 2, 3) for n in (1, 4, 6)])
